@@ -26,11 +26,22 @@ class LoopSpec:
 
 
 def split_conj(e):
+    """Top-level conjuncts; a guard is distributed:  G or (A and B)  ->  [G or A, G or B]  (one obligation each)."""
     if isinstance(e, ast.BoolOp) and isinstance(e.op, ast.And):
         out = []
         for v in e.values:
             out.extend(split_conj(v))
         return out
+    if isinstance(e, ast.BoolOp) and isinstance(e.op, ast.Or):
+        parts = [split_conj(v) for v in e.values]
+        multi = [i for i, p in enumerate(parts) if len(p) > 1]
+        if len(multi) == 1:
+            i = multi[0]
+            out = []
+            for c in parts[i]:
+                vals = list(e.values[:i]) + [c] + list(e.values[i + 1:])
+                out.append(ast.copy_location(ast.BoolOp(op=ast.Or(), values=vals), e))
+            return out
     return [e]
 
 
@@ -199,6 +210,8 @@ class World:
         self.spec_ufs = {}
         self.used_trusted = {}
         self.consts = {}
+        self.owned = []
+        self.assumed_ownership = set()
         self.load_contracts()
 
     # ------------------------------------------------------------ loading
@@ -249,6 +262,8 @@ class World:
                         self.nullable.update(ast.literal_eval(st.value))
                     elif n == "EXTERNAL_CLASSES":
                         self.ext_classes.update(ast.literal_eval(st.value))
+                    elif n == "OWNED_LIST_FIELDS":
+                        self.owned.extend(ast.literal_eval(st.value))
                     elif n.isupper():
                         try:
                             self.consts[n] = ast.literal_eval(st.value)
@@ -697,7 +712,7 @@ class World:
             # (facts derived under it stay, they are implications of the skolem being in range)
             pass
         j = z3.Int("j!cm")
-        body = z3.substitute(val.t, (idx, j))
+        body = z3.simplify(z3.substitute(val.t, (idx, j)))
         newarr = z3.Lambda([j], body)
         # assumptions made while evaluating the element (contract posts of pure calls) mention idx:
         # generalise them
@@ -1020,8 +1035,12 @@ class World:
                 res = fv.coerce(res, rty, e, spec=True)
             if not ctx.spec:
                 post = Ctx(bound, ctx.heap, spec=True, old=sctx, result=res, fuel=ctx.fuel)
-                for label, clause in c.ensures_clauses():
-                    fv.assume(fv.eval_spec_bool(clause, post))
+                fv.soft_mode = True
+                try:
+                    for label, clause in c.ensures_clauses():
+                        fv.assume(fv.eval_spec_bool(clause, post))
+                finally:
+                    fv.soft_mode = False
             return res
         if ctx.spec:
             raise VCError(f"{key} used in a spec but has no `returns` clause")
@@ -1051,8 +1070,12 @@ class World:
                 fv.assume(typeof(res.t) == self.class_id(res.ty[1]))
             fv.assume_result_wf(res)
         post = Ctx(bound, fv.heap, spec=True, old=old_ctx, result=res)
-        for label, clause in c.ensures_clauses():
-            fv.assume(fv.eval_spec_bool(clause, post))
+        fv.soft_mode = True
+        try:
+            for label, clause in c.ensures_clauses():
+                fv.assume(fv.eval_spec_bool(clause, post))
+        finally:
+            fv.soft_mode = False
         return res
 
     def module_call(self, name, e, ctx, fv):
@@ -1145,6 +1168,7 @@ class World:
             if l.ty[1] == "?":
                 l.ty = ("list", self.storage_type(args[0]))
                 fv.assume(E.lkind(l.t) == E.lkind_of(l.ty[1]))
+                fv._lkind_tag[l.t.get_id()] = E.lkind_of(l.ty[1])
             fv.list_store(l, n, args[0])
             fv.set_list_len(l, n + 1)
             return NONE
@@ -1171,7 +1195,7 @@ class World:
         if m == "pop":
             if args:
                 raise VCError("list.pop(i) not supported")
-            if not fv.choose(n > 0):
+            if not fv.choose(n > 0, exc_branch=False):
                 raise RaiseSig("IndexError", fv.where(e))
             v = fv.list_get(l, n - 1, heap)
             fv.set_list_len(l, n - 1)
@@ -1180,7 +1204,7 @@ class World:
             x = fv.coerce(args[0], l.ty[1])
             a1 = fv.list_arr(l, heap)
             present = self.list_contains(a1, n, x, l.ty[1], ctx, fv)
-            if not fv.choose(present):
+            if not fv.choose(present, exc_branch=False):
                 raise RaiseSig("ValueError", fv.where(e))
             k = z3.Int(f"rm_k!{next(fv.ctr)}")
             j = z3.Int("j!rm")
@@ -1282,6 +1306,12 @@ class World:
         finally:
             fv.reveal_strip = saved
         return mk_bool(True)
+
+    def bi_only_chars(self, e, ctx, fv):
+        """spec: only_chars(s, "abc") - every character of s is one of the given (literal) characters"""
+        v = fv.eval(e.args[0], ctx)
+        chars = e.args[1].value
+        return mk_bool(z3.InRe(v.t, z3.Star(E.re_charset(list(chars)))))
 
     def bi_is_enum_value(self, e, ctx, fv):
         v = fv.eval(e.args[0], ctx)
@@ -1453,8 +1483,12 @@ class World:
             # then the conclusion is available (keeps each query small)
             for i, r in enumerate(lm.requires):
                 fv.oblige(fv.eval_spec_bool(r, sub), "lemma-pre", f"{name}.{i}", lm.path)
-            for r in lm.ensures:
-                fv.assume(fv.eval_spec_bool(r, sub))
+            fv.soft_mode = True
+            try:
+                for r in lm.ensures:
+                    fv.assume(fv.eval_spec_bool(r, sub))
+            finally:
+                fv.soft_mode = False
         else:
             pre = conj([fv.eval_spec_bool(r, sub) for r in lm.requires])
             post = conj([fv.eval_spec_bool(r, sub) for r in lm.ensures])
